@@ -216,10 +216,13 @@ def check(ctx):
                 try:
                     setattr(obj, s['attr'], v)
                     outcome = 'accept'
+                    emsg = None
                 except tuple(errname) as ex:
                     outcome = errname[type(ex)]
+                    emsg = str(ex)
                 except Exception as ex:
                     outcome = 'untyped:' + type(ex).__name__
+                    emsg = None
                 try:
                     after = getattr(obj, s['attr'])
                 except Exception:
@@ -232,7 +235,21 @@ def check(ctx):
                     C.issue('rejection-changed-previous-value', 'oracle', rp, outcome=outcome)
                 # documented domain, independently
                 doms = [in_domain(L, g['ddesc'], v, obj) for g in s['guards']]
-                if None not in doms:
+                unread = False
+                if emsg is not None and emsg not in [g['msg'] for g in s['guards']]:
+                    # the setter rejected with a message that is not among the guards the translator read: judge the value
+                    # against the domain *that message* documents; when the rejection is right by its own message the
+                    # guard table is incomplete (a correspondence gap), not a wrong setter
+                    import translate as _tr
+                    try:
+                        dd = _tr.parse_domain(emsg, s['attr'])[1]
+                        own = in_domain(L, dd, v, obj)
+                    except Exception:
+                        own = None
+                    if own is False or own is None:
+                        unread = True
+                        C.issue('rejection-by-a-guard-the-translator-did-not-read', 'correspondence', rp, outcome=outcome, message=emsg[:80])
+                if None not in doms and not unread:
                     should = all(doms)
                     if should != (outcome == 'accept'):
                         gid = next((f"{s['cls']}.{s['attr']}#{i}" for i, dm in enumerate(doms)
